@@ -449,6 +449,8 @@ pub struct ConcStats {
     pub ttl_writes: u64,
     pub owner_reincarnations: u64,
     pub rotated: bool,
+    pub sched_steps: u64,
+    pub sched_threads: u64,
     pub puts_on_settled_keys: u64,
     pub sole_writer_put_then_delete: bool,
     pub eviction_loop_delayed: bool,
@@ -489,6 +491,8 @@ pub fn conc_stats(case: &ConcCase, history: &History) -> ConcStats {
     stats.drops = history.final_stats.get("access_dropped").copied().unwrap_or(0);
     stats.sweeps_during_run = !history.clock_log.is_empty();
     stats.rotated = history.rotated;
+    stats.sched_steps = history.sched_steps;
+    stats.sched_threads = history.sched_threads;
     stats.owner_reincarnations = history.recs.iter().filter(|rec| rec.thread == 0 && matches!(&rec.outcome, Outcome::Write { kind: "put", status: Some(St::Accepted), .. })).count() as u64;
     stats.ttl_writes = writes.iter().filter(|write| write.ttl_ns.is_some() && write.status == Some(St::Accepted)).count() as u64;
     stats.eviction_loop_delayed = history.site_hits.get(Site::CreateSpaceLoop as usize).copied().unwrap_or(0) > 0;
@@ -538,6 +542,10 @@ pub enum ConcProfile {
     /// a few short-lived TTL keys that are expired, deleted, re-put and re-TTL'd by several threads while the sweeper is
     /// slowed down between its steps (weight release, store removal) and a clock thread keeps expiring keys
     SweepRace,
+    /// tiny programs (2-3 client threads, 2-7 operations each, 1-2 keys, TTLs, clock moves as program steps) executed
+    /// under the controlled scheduler: the interleaving of clients, worker, sweeper and consumer at the schedule points is
+    /// chosen by generated priorities, not by the operating system
+    Sched,
 }
 
 fn cop_strategy(profile: ConcProfile, max_key: u8) -> BoxedStrategy<COp> {
@@ -555,7 +563,7 @@ fn cop_strategy(profile: ConcProfile, max_key: u8) -> BoxedStrategy<COp> {
         ConcProfile::Shutdown => prop_oneof![6 => put, 3 => upsert, 3 => delete, 5 => read, 1 => Just(COp::AwaitAll), 1 => Just(COp::Shutdown)].boxed(),
         ConcProfile::Reads => prop_oneof![1 => put, 30 => read, 1 => hold].boxed(),
         ConcProfile::Deadlock => prop_oneof![5 => put, 6 => upsert, 3 => delete, 6 => read, 2 => hold, 1 => Just(COp::AwaitAll)].boxed(),
-        ConcProfile::Bursts | ConcProfile::DeleteWindow | ConcProfile::EvictVsSweep | ConcProfile::PutContention | ConcProfile::TightFit | ConcProfile::SweepRace => prop_oneof![6 => put, 2 => upsert, 4 => delete, 1 => read].boxed(),
+        ConcProfile::Bursts | ConcProfile::DeleteWindow | ConcProfile::EvictVsSweep | ConcProfile::PutContention | ConcProfile::TightFit | ConcProfile::SweepRace | ConcProfile::Sched => prop_oneof![6 => put, 2 => upsert, 4 => delete, 1 => read].boxed(),
     }
 }
 
@@ -594,7 +602,7 @@ fn delete_window_strategy(thorough: bool) -> BoxedStrategy<ConcCase> {
     (cfg, deleter, readers, injection).prop_map(|(cfg, deleter, readers, injection)| {
         let mut threads = vec![deleter];
         threads.extend(readers);
-        ConcCase { cfg, threads, injection, clock: Vec::new(), monitor: false, consumer: ConsumerMode::Free }
+        ConcCase { cfg, threads, injection, clock: Vec::new(), monitor: false, consumer: ConsumerMode::Free, sched: None }
     }).boxed()
 }
 
@@ -617,7 +625,7 @@ fn evict_vs_sweep_strategy(thorough: bool) -> BoxedStrategy<ConcCase> {
     let cfg = (prop_oneof![Just(60i64), Just(80), Just(100), Just(150)], prop_oneof![Just(1usize), Just(4)], prop_oneof![Just(HashMode::Identity), Just(HashMode::Constant)], prop_oneof![Just(100u64), Just(300)])
         .prop_map(|(max_weight, cmd_buf, hash, tick_us)| Cfg { counters: 1000, capacity: 16, max_weight, shards: 2, cmd_buf, pool: 1, buf: 4, tick_us, hash, weight_mode: WeightMode::Table(vec![8, 11, 14, 17, 20]), start_ns: 0, noise_readers: 0 });
     let clock = prop::collection::vec((50u16..800, 200u32..1600).prop_map(|(pause_us, advance_ms)| ClockStep { pause_us, advance_ms }), 6..=(if thorough { 40 } else { 20 }));
-    (cfg, threads, injection, clock).prop_map(|(cfg, threads, injection, clock)| ConcCase { cfg, threads, injection, clock, monitor: true, consumer: ConsumerMode::Free }).boxed()
+    (cfg, threads, injection, clock).prop_map(|(cfg, threads, injection, clock)| ConcCase { cfg, threads, injection, clock, monitor: true, consumer: ConsumerMode::Free, sched: None }).boxed()
 }
 
 fn put_contention_strategy(thorough: bool) -> BoxedStrategy<ConcCase> {
@@ -635,7 +643,7 @@ fn put_contention_strategy(thorough: bool) -> BoxedStrategy<ConcCase> {
     let injection = (prop::collection::vec((site, 20u8..=200, delay), 0..=3), any::<u64>()).prop_map(|(sites, seed)| Injection { sites, seed: seed | 1 });
     let cfg = (prop_oneof![Just(1usize), Just(4), Just(64)], prop_oneof![Just(HashMode::Identity), Just(HashMode::Default)])
         .prop_map(|(cmd_buf, hash)| Cfg { counters: 1000, capacity: 16, max_weight: 4000, shards: 2, cmd_buf, pool: 2, buf: 4, tick_us: 1000, hash, weight_mode: WeightMode::Table(vec![8, 11, 14, 17, 20]), start_ns: 0, noise_readers: 0 });
-    (cfg, threads, injection).prop_map(|(cfg, threads, injection)| ConcCase { cfg, threads, injection, clock: Vec::new(), monitor: false, consumer: ConsumerMode::Free }).boxed()
+    (cfg, threads, injection).prop_map(|(cfg, threads, injection)| ConcCase { cfg, threads, injection, clock: Vec::new(), monitor: false, consumer: ConsumerMode::Free, sched: None }).boxed()
 }
 
 fn sweep_race_strategy(thorough: bool) -> BoxedStrategy<ConcCase> {
@@ -659,7 +667,26 @@ fn sweep_race_strategy(thorough: bool) -> BoxedStrategy<ConcCase> {
     let cfg = (prop_oneof![Just(1usize), Just(8)], prop_oneof![Just(HashMode::Identity), Just(HashMode::Default)], prop_oneof![Just(100u64), Just(300)])
         .prop_map(|(cmd_buf, hash, tick_us)| Cfg { counters: 1000, capacity: 16, max_weight: 4000, shards: 2, cmd_buf, pool: 1, buf: 4, tick_us, hash, weight_mode: WeightMode::Table(vec![8, 11, 14, 17, 20]), start_ns: 0, noise_readers: 0 });
     let clock = prop::collection::vec((50u16..600, 300u32..1400).prop_map(|(pause_us, advance_ms)| ClockStep { pause_us, advance_ms }), 8..=(if thorough { 60 } else { 30 }));
-    (cfg, threads, injection, clock).prop_map(|(cfg, threads, injection, clock)| ConcCase { cfg, threads, injection, clock, monitor: true, consumer: ConsumerMode::Free }).boxed()
+    (cfg, threads, injection, clock).prop_map(|(cfg, threads, injection, clock)| ConcCase { cfg, threads, injection, clock, monitor: true, consumer: ConsumerMode::Free, sched: None }).boxed()
+}
+
+fn sched_strategy(thorough: bool) -> BoxedStrategy<ConcCase> {
+    let key = prop_oneof![3 => Just(0u8), 1 => Just(1u8)];
+    let ttl = prop_oneof![2 => Just(None), 2 => (0u32..=2).prop_map(|s| Some(TtlSel::Secs(s))), 1 => (200u32..=900).prop_map(|m| Some(TtlSel::Millis(m)))];
+    let ttl_req = prop_oneof![2 => Just(TtlReq::Keep), 2 => (0u32..=3).prop_map(|s| TtlReq::Set(TtlSel::Secs(s))), 1 => Just(TtlReq::Remove)];
+    let op = prop_oneof![
+        5 => (key.clone(), 0u8..3, any::<bool>(), ttl, any::<bool>()).prop_map(|(k, extra, explicit, ttl, wait)| COp::Put { k, extra, explicit, ttl, wait }),
+        4 => (key.clone(), ttl_req, any::<bool>()).prop_map(|(k, ttl, wait)| COp::Upsert { k, down: 0, ttl, wait }),
+        4 => (key.clone(), any::<bool>()).prop_map(|(k, wait)| COp::Delete { k, wait }),
+        5 => (read_kind_strategy(), prop::collection::vec(key.clone(), 1..=2)).prop_map(|(kind, keys)| COp::Read { kind, keys }),
+        3 => prop_oneof![Just(400u32), Just(1000), Just(1600), Just(2500)].prop_map(|ms| COp::Advance { ms }),
+        1 => Just(COp::AwaitAll),
+    ];
+    let threads = prop::collection::vec(prop::collection::vec(op, 2..=(if thorough { 10 } else { 7 })), 2..=3);
+    let plan = (prop::collection::vec(any::<u8>(), 8), prop::collection::vec(1u16..120, 0..=4)).prop_map(|(priorities, change_points)| SchedPlan { priorities, change_points });
+    let cfg = (prop_oneof![Just(30i64), Just(4000)], prop_oneof![Just(1usize), Just(8)], prop_oneof![Just(HashMode::Identity), Just(HashMode::Constant)])
+        .prop_map(|(max_weight, cmd_buf, hash)| Cfg { counters: 100, capacity: 16, max_weight, shards: 2, cmd_buf, pool: 1, buf: 2, tick_us: 200, hash, weight_mode: WeightMode::Table(vec![8, 11, 14, 17, 20]), start_ns: 0, noise_readers: 0 });
+    (cfg, threads, plan).prop_map(|(cfg, threads, plan)| ConcCase { cfg, threads, injection: Injection { sites: Vec::new(), seed: 1 }, clock: Vec::new(), monitor: false, consumer: ConsumerMode::Free, sched: Some(plan) }).boxed()
 }
 
 pub const TIGHT_OWNER_KEYS: u8 = 2;
@@ -695,7 +722,7 @@ fn tight_fit_strategy(thorough: bool) -> BoxedStrategy<ConcCase> {
         (cfg, Just(owner), others, injection, clock).prop_map(|(cfg, owner, others, injection, clock)| {
             let mut threads = vec![owner];
             threads.extend(others);
-            ConcCase { cfg, threads, injection, clock, monitor: true, consumer: ConsumerMode::Free }
+            ConcCase { cfg, threads, injection, clock, monitor: true, consumer: ConsumerMode::Free, sched: None }
         })
     }).boxed()
 }
@@ -703,6 +730,7 @@ fn tight_fit_strategy(thorough: bool) -> BoxedStrategy<ConcCase> {
 pub fn conc_case_strategy(profile: ConcProfile, thorough: bool) -> BoxedStrategy<ConcCase> {
     if profile == ConcProfile::TightFit { return tight_fit_strategy(thorough); }
     if profile == ConcProfile::SweepRace { return sweep_race_strategy(thorough); }
+    if profile == ConcProfile::Sched { return sched_strategy(thorough); }
     if profile == ConcProfile::PutContention { return put_contention_strategy(thorough); }
     if profile == ConcProfile::DeleteWindow { return delete_window_strategy(thorough); }
     if profile == ConcProfile::EvictVsSweep { return evict_vs_sweep_strategy(thorough); }
@@ -746,7 +774,7 @@ pub fn conc_case_strategy(profile: ConcProfile, thorough: bool) -> BoxedStrategy
                 }
             }
         }
-        ConcCase { cfg, threads, injection, clock, monitor: profile != ConcProfile::Reads, consumer }
+        ConcCase { cfg, threads, injection, clock, monitor: profile != ConcProfile::Reads, consumer, sched: None }
     }).boxed()
 }
 
@@ -769,7 +797,7 @@ pub fn check_conc(case: &ConcCase, run: &ConcRun, property: &str) -> Check {
             "C13" => check_c13(history)?,
             "C11" => { check_c11(history)?; if let Some(snapshot) = &run.snapshot { check_c11_final(history, snapshot)?; } }
             "C07" => check_c07(case, history)?,
-            "C03" => { if case.threads.first().map(|ops| ops.iter().all(|op| match op { COp::Put { k, .. } | COp::Upsert { k, .. } | COp::Delete { k, .. } => *k < TIGHT_OWNER_KEYS, _ => true })).unwrap_or(false) && case.threads.len() >= 2 && case.cfg.max_weight < 4000 { check_c03(case, history)?; } }
+            "C03" => { if case.sched.is_none() && case.threads.first().map(|ops| ops.iter().all(|op| match op { COp::Put { k, .. } | COp::Upsert { k, .. } | COp::Delete { k, .. } => *k < TIGHT_OWNER_KEYS, _ => true })).unwrap_or(false) && case.threads.len() >= 2 && case.cfg.max_weight < 4000 { check_c03(case, history)?; } }
             "C02" => check_c02(history, start_clock, property == "C02")?,
             "C01" => check_c01(history, case.cfg.max_weight)?,
             "C05" => { if let Some(snapshot) = &run.snapshot { check_snapshot_consistency(snapshot)?; } }
@@ -798,6 +826,7 @@ pub fn conc_case_result(case: &ConcCase, property: &str, repeats: u32, stall_win
             ("with_injected_delay", stats.delays > 0), ("two_sites_delayed", stats.distinct_sites_delayed >= 2), ("send_blocked_on_full_queue", stats.queue_full_sends),
             ("commands_in_flight_from_two_threads", stats.concurrent_in_flight), ("with_shutting_down_ack", stats.shutting_down_acks > 0), ("with_buffer_handover", stats.handovers > 0),
             ("with_dropped_buffer", stats.drops > 0), ("with_clock_thread", stats.sweeps_during_run), ("with_space_rejection", stats.evicted_or_rejected), ("unawaited_same_key_writes", stats.unawaited_same_key),
+            ("controlled_schedule_with_4_or_more_threads", stats.sched_threads >= 4),
             ("put_on_settled_key", stats.puts_on_settled_keys > 0), ("sole_writer_put_then_delete", stats.sole_writer_put_then_delete),
             ("eviction_loop_ran", stats.eviction_loop_delayed), ("sweeper_collected_during_run", stats.swept_during_run),
             ("read_between_delete_return_and_ack", stats.read_between_delete_and_ack), ("guard_held_while_delete_called", stats.guard_held_during_delete),
